@@ -629,6 +629,22 @@ fn front(sql: &str) -> (String, &'static str) {
 }
 
 // ------------------------------------------------------------------------------------------------
+// Panic signatures: the message of the first panic (since the last clear) on ANY thread (worker panics surface as Canceled in the
+// caller); recorded so that a lost answer can be attributed to a known defect of another component.
+static LAST_PANIC: std::sync::Mutex<String> = std::sync::Mutex::new(String::new());
+
+fn record_panics() {
+    std::panic::set_hook(Box::new(|info| {
+        let msg = if let Some(s) = info.payload().downcast_ref::<&str>() { s.to_string() } else if let Some(s) = info.payload().downcast_ref::<String>() { s.clone() } else { "?".to_string() };
+        let loc = info.location().map(|l| l.file().rsplit('/').next().unwrap_or("").to_string()).unwrap_or_default();
+        if std::env::var("VERIF_DEBUG").is_ok() { eprintln!("panic {}: {}", loc, msg); }
+        // keep the FIRST panic since the last clear: later ones (PoisonError on the task's state lock, …) are consequences
+        if let Ok(mut g) = LAST_PANIC.lock() { if g.is_empty() { *g = format!("{}: {}", loc, msg.chars().take(90).collect::<String>()); } }
+    }));
+}
+fn take_panic() -> String { LAST_PANIC.lock().map(|mut g| std::mem::take(&mut *g)).unwrap_or_default() }
+
+// ------------------------------------------------------------------------------------------------
 // Databases
 const NO_COMPACTION: u64 = 1_000_000;
 /// per-call deadline; after MAX_HANGS timeouts the remaining end-to-end calls are skipped (each hang is already a failure)
@@ -666,6 +682,7 @@ fn build_main() -> Arc<LocustDB> {
 
 fn build_dbs() -> Dbs { Dbs { main: build_main(), fresh: Arc::new(LocustDB::new(&options())) } }
 
+#[derive(Clone)]
 struct Cat { exists: bool, meta: String, parts: usize, rows: usize, columns: Vec<String> }
 
 fn column_names(db: &Arc<LocustDB>, table: &str) -> Option<Vec<String>> {
@@ -708,13 +725,34 @@ fn observe(out: &QOut) -> (String, String) {
             t.push(match rows { Some(r) => format!("R{}", rows_tok(r)), None => "R-".to_string() });
             (t.join(" "), format!("ok n={} c={} r={}", toks(colnames, |n| hexs(n)), cols.len(), out_len(cols, rows)))
         }
-        other => (other.tok(), other.tok()),
+        other => {
+            let sig = take_panic();
+            (if sig.is_empty() { other.tok() } else { format!("{} {}", other.tok(), hexs(&sig)) }, other.tok())
+        }
     }
 }
 
 fn healthy(out: &QOut) -> bool { !matches!(out, QOut::Panic(_) | QOut::Hang) && out.tok() != "err:canceled" }
 
 // ------------------------------------------------------------------------------------------------
+fn plain_sel(items: Vec<Item>, table: &TableRef) -> Sel {
+    Sel { prefix: String::new(), distinct: false, items, from: vec![(table.clone(), vec![])], where_: None, group_all: false, group_by: vec![],
+        having: None, order_by: vec![], order_all: false, limit: Lim::None, suffix: String::new() }
+}
+/// `SELECT NOT (a IS NULL) AS x, b FROM _meta_tables WHERE (f = 2) OR (b <> 1) ORDER BY b`: every column is unknown
+fn where_unknown(meta: &TableRef) -> Parsed {
+    let mut s = plain_sel(vec![Item::Aliased(not(AE::IsNull(Box::new(id("a")))), "x".into(), None, true), Item::Unnamed(id("b"))], meta);
+    s.where_ = Some(bin("or", bin("=", id("f"), num("2")), bin("<>", id("b"), num("1"))));
+    s.order_by = vec![(id("b"), None, "")];
+    Parsed::Stmts(vec![Stmt::Select(s)], String::new())
+}
+/// `SELECT a FROM t ORDER BY a > b`
+fn order_by_bool(t: &TableRef) -> Parsed {
+    let mut s = plain_sel(vec![Item::Unnamed(id("a"))], t);
+    s.order_by = vec![(bin(">", id("a"), id("b")), None, "")];
+    Parsed::Stmts(vec![Stmt::Select(s)], String::new())
+}
+
 fn corpus(tables: &[TableRef]) -> Vec<(Parsed, &'static str)> {
     let t = tables[0].clone();
     let base = |items: Vec<Item>, limit: Lim, table: TableRef| Parsed::Stmts(vec![Stmt::Select(Sel { prefix: String::new(), distinct: false, items,
@@ -732,7 +770,7 @@ fn corpus(tables: &[TableRef]) -> Vec<(Parsed, &'static str)> {
         (Parsed::Stmts(vec![], ";".into()), "corpus:only-semicolon"),
         (base(vec![Item::Unnamed(AE::Ident("`".into(), Some('"')))], Lim::None, t.clone()), "corpus:strip-quotes-one-char"),
         (base(vec![Item::Unnamed(bin("=", AE::Ident("a".into(), Some('"')), id("é")))], Lim::None, t.clone()), "corpus:strip-quotes-char-boundary"),
-        (base(vec![Item::Unnamed(id("name"))], Lim::None, meta), "corpus:empty-table-early-answer"),
+        (base(vec![Item::Unnamed(id("name"))], Lim::None, meta.clone()), "corpus:empty-table-early-answer"),
         (base(vec![Item::Unnamed(func("AVG", vec![id("f")]))], Lim::None, t.clone()), "corpus:final-pass-error"),
         (base(vec![Item::Unnamed(num("1"))], Lim::None, t.clone()), "corpus:constant-select"),
         (base(vec![Item::Unnamed(id("a")), Item::Unnamed(num("2"))], Lim::None, t.clone()), "corpus:constant-select-mixed"),
@@ -740,6 +778,11 @@ fn corpus(tables: &[TableRef]) -> Vec<(Parsed, &'static str)> {
         (base(a(), Lim::LimitOffset(Some(num("2")), Some((num("20"), "")), false), t.clone()), "corpus:offset-beyond-rows"),
         (base(a(), Lim::LimitOffset(Some(num("18446744073709551615")), Some((num("1"), "")), false), t.clone()), "corpus:limit-plus-offset-overflow"),
         (base(a(), Lim::LimitOffset(Some(num("0")), None, false), t.clone()), "corpus:limit-zero"),
+        // witnesses of the findings that are still open (first so that every run reports them) or were fixed by others
+        (base(vec![Item::Unnamed(AE::Ident("*".into(), Some('"')))], Lim::None, t.clone()), "corpus:open:quoted-star"),
+        (base(vec![Item::Unnamed(bin("=", id("a"), id("b")))], Lim::None, t.clone()), "corpus:open:bool-projection-merge"),
+        (where_unknown(&meta), "corpus:open:where-null-partition"),
+        (order_by_bool(&t), "corpus:open:order-by-nullable-comparison"),
     ]
 }
 
@@ -855,13 +898,13 @@ fn mutate(rng: &mut Rng, sql: &str) -> String {
 
 fn main() {
     let args = parse_args();
-    if std::env::var("VERIF_DEBUG").is_err() { quiet_panics(); }
+    record_panics();
     let mut rng = Rng::new(args.seed);
     let mut cases = Cases::create(&args.out);
     let tables = table_refs();
     let mut dbs = build_dbs();
-    let n_stmts = if args.thorough() { 10000 } else { 900 };
-    let n_mut = if args.thorough() { 12000 } else { 1000 };
+    let n_stmts = if args.thorough() { 8000 } else { 500 };
+    let n_mut = if args.thorough() { 8000 } else { 600 };
 
     let mut work: Vec<(Parsed, String)> = corpus(&tables).into_iter().map(|(p, c)| (p, c.to_string())).collect();
     work.extend(systematic(&tables));
@@ -869,6 +912,8 @@ fn main() {
 
     let mut valid_sql: Vec<String> = vec![];
     let mut hangs = 0usize;
+    // catalogue facts per (database, table); the databases are read-only between rebuilds
+    let mut cat_cache: std::collections::HashMap<(String, String), Cat> = std::collections::HashMap::new();
     let mut render_rng = rng.fork();
     for (p, class) in &work {
         let sql = p.sql(&mut render_rng);
@@ -886,8 +931,9 @@ fn main() {
         let mut broken = false;
         for (db, which) in targets {
             let table = p.single_select().and_then(|s| s.table_name()).unwrap_or_default();
-            let cat = catalog(db, &table);
+            let cat = cat_cache.entry((which.to_string(), table.clone())).or_insert_with(|| catalog(db, &table)).clone();
             let rowformat = !rng.chance(1, 5);
+            let _ = take_panic();
             let out = if hangs < MAX_HANGS { query_full(db, &sql, rowformat, DEADLINE_S) } else { continue };
             if matches!(out, QOut::Hang) { hangs += 1; }
             let (obs, canon) = observe(&out);
@@ -897,7 +943,7 @@ fn main() {
             cases.push(&format!("run:{}:{}:{}:{}", which, tclass, class, kind), &line, &canon, &format!("{} | {}", sql, out.detail()));
             if !healthy(&out) { broken = true; }
         }
-        if broken { dbs = build_dbs(); }
+        if broken { dbs = build_dbs(); cat_cache.clear(); }
     }
 
     // ---- byte-level mutations of valid statements (oracle only)
@@ -905,6 +951,7 @@ fn main() {
         let base = if valid_sql.is_empty() { "SELECT a FROM t".to_string() } else { rng.pick(&valid_sql).clone() };
         let sql = mutate(&mut rng, &base);
         if hangs >= MAX_HANGS { break; }
+        let _ = take_panic();
         let out = query_full(&dbs.main, &sql, !rng.chance(1, 5), DEADLINE_S);
         if matches!(out, QOut::Hang) { hangs += 1; }
         let (obs, canon) = observe(&out);
